@@ -147,6 +147,47 @@ make_prior(const Problem& pr, const RunCfg& rcg)
   return qp;
 }
 
+
+// ------------------------------------------------------------------ the quadratic prior from its definition
+// gradient_r = beta * sum_n w_n (x_r - x_n) kappa_r kappa_n and surrogate curvature_r = beta * sum_n w_n kappa_r kappa_n over the
+// 3x3x3 neighbours n of r that lie inside the image, w_n = voxel size in x / distance to the neighbour (documented default weights)
+struct ExplicitQuadratic
+{
+  static void both(std::vector<double>& grad, std::vector<double>& curv, const VoxelsOnCartesianGrid<float>& x, const target_type* kappa,
+                   double beta)
+  {
+    const CartesianCoordinate3D<float> vs = x.get_voxel_size();
+    CartesianCoordinate3D<int> lo, hi;
+    x.get_regular_range(lo, hi);
+    const VoxelsOnCartesianGrid<float>* kp = kappa ? dynamic_cast<const VoxelsOnCartesianGrid<float>*>(kappa) : nullptr;
+    grad.clear();
+    curv.clear();
+    for (int z = lo[1]; z <= hi[1]; ++z)
+      for (int y = lo[2]; y <= hi[2]; ++y)
+        for (int xx = lo[3]; xx <= hi[3]; ++xx)
+          {
+            double g = 0, c = 0;
+            for (int dz = -1; dz <= 1; ++dz)
+              for (int dy = -1; dy <= 1; ++dy)
+                for (int dx = -1; dx <= 1; ++dx)
+                  {
+                    if (!dz && !dy && !dx)
+                      continue;
+                    const int z2 = z + dz, y2 = y + dy, x2 = xx + dx;
+                    if (z2 < lo[1] || z2 > hi[1] || y2 < lo[2] || y2 > hi[2] || x2 < lo[3] || x2 > hi[3])
+                      continue;
+                    double w = vs.x() / std::sqrt((double)dx * dx * vs.x() * vs.x() + (double)dy * dy * vs.y() * vs.y() + (double)dz * dz * vs.z() * vs.z());
+                    if (kp)
+                      w *= (double)(*kp)[z][y][xx] * (double)(*kp)[z2][y2][x2];
+                    g += w * ((double)x[z][y][xx] - (double)x[z2][y2][x2]);
+                    c += w;
+                  }
+            grad.push_back(beta * g);
+            curv.push_back(beta * c);
+          }
+  }
+};
+
 // ------------------------------------------------------------------ explicit-P reference
 struct Explicit
 {
